@@ -8,6 +8,13 @@ VERIF = os.path.dirname(os.path.dirname(os.path.abspath(__file__)))
 def h(obj):
     return hashlib.sha1(json.dumps(obj, sort_keys=True, default=repr, ensure_ascii=True).encode()).hexdigest()[:16]
 
+def _rss_mb():
+    try:
+        with open('/proc/self/statm') as f:
+            return int(f.read().split()[1]) * os.sysconf('SC_PAGE_SIZE') >> 20
+    except Exception:
+        return -1
+
 class CaseTimeout(Exception):
     pass
 
@@ -74,6 +81,9 @@ class Run:
     def guard(self, case, fn, *args, seconds=120, **kw):
         """Run one case under the watchdog.  An exception escaping from the code under test (or the harness) is a violation
         with its traceback as witness - it must never look like 'held'; a watchdog firing is inconclusive."""
+        dbg = os.environ.get('VERIF_DEBUG_MEM')
+        if dbg:
+            r0, t0 = _rss_mb(), time.time()
         try:
             with timebox(seconds):
                 return fn(self, case, *args, **kw)
@@ -85,6 +95,9 @@ class Run:
                 return
             tb = traceback.format_exc()
             self.violation(f'unexpected {type(e).__name__} escaped while running the case: {e!s:.200}', case, observed=tb[-2500:])
+        finally:
+            if dbg and (_rss_mb() - r0 > int(dbg) or time.time() - t0 > 10):
+                sys.stderr.write(f'[mem] {getattr(fn, "__name__", fn)} rss {r0} -> {_rss_mb()} MB in {time.time() - t0:.1f}s case={str(case)[:300]}\n')
 
     # ---- (de)serialisation for shard partials ----
     def to_partial(self):
